@@ -92,6 +92,9 @@ def parameter_scenario(ctx, cname):
              ".size2": lambda s_, r, a, k, n: r.attrs["shape"][1] if isinstance(r, Obj) and "shape" in r.attrs else NotImplemented,
              "._param_value": lambda s_, r, a, k, n: Sym("declared_value", a[0].name if isinstance(a[0], Obj) else freeze(a[0])),
              "is_equal": lambda s_, r, a, k, n: a[0] is a[1] or freeze(a[0]) == freeze(a[1]),
+             # representation changes of a value (dense / DM) do not change which value it is
+             "ca.densify": lambda s_, r, a, k, n: a[0], "densify": lambda s_, r, a, k, n: a[0], "DM": lambda s_, r, a, k, n: a[0] if len(a) == 1 else NotImplemented,
+             "ca.DM": lambda s_, r, a, k, n: a[0] if len(a) == 1 else NotImplemented,
              "hcat": lambda s_, r, a, k, n: Sym("hcat", tuple(freeze(x) for x in a[0])) if a and isinstance(a[0], list) else NotImplemented}
     me = fresh_obj("self", N=N, P=[], P_control=[], P_control_plus=[], signals={}, xi=Sym("xi"), T=Sym("T"))
     out = {"created": None, "transfer": None, "updates": {}, "reject": None, "error": None}
@@ -432,3 +435,22 @@ def r09_14(ctx):
         copied = isinstance(v, ast.Call) and ast.unparse(v.func) in COPIERS
         ctx.check(copied, "Stage.set_value stores a private copy of the value", detail="the caller's object is stored by reference: mutating it afterwards silently changes the parameter value used by the next (re-)transcription",
                   expected="self._param_vals[parameter] = copy.deepcopy(value) (or DM(value))", found=ast.unparse(st), fi=g, node=st, sample={"store": ast.unparse(st)})
+
+
+@rule("R09.15", min_instances=4, desc="a parameter value handed to Opti together with an EXPRESSION target (the per-interval parameters stacked with hcat) is made dense first: Opti pairs the k-th stored nonzero of a sparse value with the k-th entry of the expression")
+def r09_15(ctx):
+    """D89: set_value(r, vertcat(xref, DM(1, N+1))) after transcription gave [[1 3 5 9 9],[2 4 9 9 9]] (old values 9) instead of [[1..5],[0..0]]."""
+    P = ctx.prog
+    n = 0
+    for name in ("set_value", "set_parameter"):
+        f = P.own_method("SamplingMethod", name)
+        for c in walk_no_nested(f.node):
+            if isinstance(c, ast.Call) and isinstance(c.func, ast.Attribute) and c.func.attr == "set_value" and len(c.args) == 2 and isinstance(c.args[0], ast.Call) \
+                    and ast.unparse(c.args[0].func).split(".")[-1] in ("hcat", "horzcat", "vcat", "vertcat", "vvcat", "veccat"):
+                n += 1
+                v = c.args[1]
+                dense = isinstance(v, ast.Call) and ast.unparse(v.func).split(".")[-1] in ("densify", "full")
+                ctx.check(dense, "SamplingMethod.%s: the value for %s is made dense" % (name, ast.unparse(c.args[0])[:40]), detail="a value with structural zeros is packed into the first entries of the stacked parameters and the others keep their old values",
+                          expected="opti.set_value(<stacked parameters>, densify(DM(value)))", found=ast.unparse(v)[:60], fi=f, node=c)
+    if n < 4:
+        raise AnalysisError("R09.15: only %d set_value calls with a stacked target found in SamplingMethod.set_value / set_parameter (expected 4)" % n)
